@@ -1,7 +1,10 @@
 /-
   Drivers.C01 — input line: `ins <x86|amd64> <hexbytes> <0xaddr> | <state>` TAB
                             `<BTR in FIL | err:…> | <falcon post> | <operand description> | <silicon post>`
-  Output: `<model post>\t<spec post>`
+  Output: `<model post>\t<spec post>\t<mirrored|->` and, when falcon's IL differs syntactically from the mirror's,
+          four more fields `MIRROR-BTR \t <the mirror's BTR in FIL | -> \t <runBTR of the mirror> \t <runBTR of falcon's IL>`
+          (the last two as `postLine` over the registers of the request's state): the input of the semantic comparison
+          tools/il_equiv.py and of its per-run self-test (props/smt_tie.py, design/06_smt_tie.md)
     model = the Lean IL semantics (`runBTR`) on the dumped IL from the same state
     spec  = the x86 specification `X86.step` on the operand description from the same state
             (`-` when the description is missing or the mnemonic is outside the specification)
@@ -9,6 +12,7 @@
 import FalconModel.DriverLoop
 import FalconModel.Isa.X86
 import FalconModel.Isa.X86Lift
+import FalconModel.FilBTR
 open Falcon
 
 def fields (s : String) : List String := (s.splitOn " | ").map (fun x => x.trimAscii.toString)
@@ -30,23 +34,28 @@ def handle (line : String) : String :=
         let watch := watchOf fpost
         let windows := ms.mem.map fun (a, bs) => (a, bs.length)
         let ins? := X86.parseIns mode addr desc
-        let model :=
+        let allRegs := ms.regs.map (·.1)
+        -- (model post, mirror fields): option (A): for the mirrored class the dumped IL must BE the mirror's output;
+        -- if it is not, the mirror's IL goes out as text for the semantic comparison
+        let (model, mirrorFields) : String × String :=
           match Sx.parseAll btr with
           | some [x] =>
             match Fil.btr? x with
             | some r =>
-              -- option (A): for the mirrored class the dumped IL must BE the mirror's output
-              let mirrorOk : Bool :=
-                match ins? with
-                | some i =>
-                  match X86Lift.liftIns i with
-                  | some (.ok m) => decide (m.instrs = r.instrs) && decide (m.succs = r.succs) && m.addr == r.addr && m.length == r.length
-                  | some _ => false
-                  | none => true
-                | none => true
-              if mirrorOk then postLine (runBTR r ms.toState 20000) watch windows else "next=mirror-differs"
-            | none => "-"
-          | _ => "-"
+              let post := postLine (runBTR r ms.toState 20000) watch windows
+              let diffFields (m? : Option BTR) : String :=
+                let fil := match m? with | some m => Fil.btrStr m | none => "-"
+                let pm := match m? with | some m => postLine (runBTR m ms.toState 20000) allRegs windows | none => "-"
+                "\tMIRROR-BTR\t" ++ fil ++ "\t" ++ pm ++ "\t" ++ postLine (runBTR r ms.toState 20000) allRegs windows
+              match ins? with
+              | some i =>
+                match X86Lift.liftIns i with
+                | some (.ok m) => if Fil.btrSame m r then (post, "") else (post, diffFields (some m))
+                | some _ => (post, diffFields none)
+                | none => (post, "")
+              | none => (post, "")
+            | none => ("-", "")
+          | _ => ("-", "")
         let watchS := if watch.isEmpty then
             (if mode = .amd64 then X86.gprNames else X86.regNames32) ++ ["CF", "ZF", "SF", "OF", "DF"] else watch
         let spec :=
@@ -56,7 +65,7 @@ def handle (line : String) : String :=
         let inMirror := match ins? with
           | some i => if (X86Lift.liftIns i).isSome then "mirrored" else "-"
           | none => "-"
-        model ++ "\t" ++ spec ++ "\t" ++ inMirror
+        model ++ "\t" ++ spec ++ "\t" ++ inMirror ++ mirrorFields
       | _, _ => "bad-request\t-"
     | _, _ => "bad-request\t-"
   | _ => "bad-request\t-"
